@@ -237,6 +237,7 @@ class Circuit:
             raise ModeRangeError("Circuit to add is outside of mode range")
 
         # Include any existing internal modes into the circuit to be added
+        pass_through: list[int] = []
         for i in sorted(self.__internal_modes):
             # Need to account for shifts when adding new heralds
             target_mode = i - mode
@@ -245,9 +246,14 @@ class Circuit:
                     target_mode += 1
             if 0 <= target_mode < circuit.n_modes:
                 spec = circuit._add_empty_mode(spec, target_mode)
+                pass_through = [
+                    p + 1 if p >= target_mode else p for p in pass_through
+                ]
+                pass_through.append(target_mode)
         # Then add new modes for heralds from circuit and also add swaps to
-        # enforce that the input and output herald are on the same mode
-        provisional_swaps = {}
+        # enforce that the input and output herald are on the same mode. Any
+        # pass-through modes must stay on the same mode.
+        provisional_swaps = {p: p for p in pass_through}
         for m in sorted(circuit.heralds["input"]):
             self.__circuit_spec = self._add_empty_mode(
                 self.__circuit_spec, mode + m
